@@ -100,10 +100,20 @@ def mutants(args, seed):
         patches.append((name, p, prop, [prop]))
     if args:
         patches = [x for x in patches if any(a in x[0] for a in args)]
-    scratch = "/tmp/verif-mutant-repo"
-    sim_copy = "/tmp/verif-mutant-sim"
-    target = "/tmp/verif-mutant-target"
-    work = "/tmp/verif-mutant-work"
+    # per-invocation scratch paths: two self-tests at once must not remove each other's copies
+    tag = "verif-mutant-%d" % os.getpid()
+    scratch = "/tmp/%s-repo" % tag
+    sim_copy = "/tmp/%s-sim" % tag
+    target = "/tmp/%s-target" % tag
+    work = "/tmp/%s-work" % tag
+    # leftovers of self-tests whose process is gone
+    for d in glob.glob("/tmp/verif-mutant-*"):
+        m = os.path.basename(d).split("-")
+        pid = m[2] if len(m) > 3 and m[2].isdigit() else None
+        if pid is None or not os.path.exists("/proc/%s" % pid):
+            subprocess.run(["git", "-C", "/repo", "worktree", "remove", "--force", d], capture_output=True)
+            shutil.rmtree(d, ignore_errors=True)
+    subprocess.run(["git", "-C", "/repo", "worktree", "prune"], capture_output=True)
     for d in (scratch, sim_copy, work):
         if os.path.exists(d):
             subprocess.run(["git", "-C", "/repo", "worktree", "remove", "--force", d], capture_output=True)
